@@ -736,6 +736,14 @@ theorem C01_binarySearch (ps : List Pattern) (hwf : ∀ p ∈ ps, p.WF) (m : Nod
   cases m with
   | mk suf S K => exact Ix.binarySearch_ports _ (Ix.SchemesOK_ports_mem (Node.Inv_mk.mp hinv).1 i hi) port
 
+/-- **C01 (Tree.Contains as the code runs it).** `Ix.treeContainsBS` is `Tree.Contains` with every index expression checked
+(`n.ports[i]`, `n.children[i]`, `lastByte`, `splitAtCommonSuffix`) *and* every `slices.BinarySearch` run as the library's
+halving loop.  On every tree built from well-formed patterns it returns `.ok` of the list-level model's answer — which
+`C01_tree` identifies with "some listed pattern denotes the origin". -/
+theorem C01_contains_binarySearch (ps : List Pattern) (hwf : ∀ p ∈ ps, p.WF) (o : Origin) :
+    Ix.treeContainsBS (ps.foldl Tree.insert Node.empty) o = .ok (Tree.contains (ps.foldl Tree.insert Node.empty) o) :=
+  Ix.treeContainsBS_refines _ (C01_invariant ps hwf) o
+
 /-- Whatever a slice holds (sorted or not), `slices.BinarySearch` returns a position in `[0, len]` and `found` only inside
 the slice: the index expressions that use its result cannot go out of range. -/
 theorem C01_binarySearch_range {α : Type} [BEq α] [Inhabited α] (lt : α → α → Bool) (x : α) (l : List α) :
@@ -762,5 +770,6 @@ example : Ix.binarySearch Ix.natLt 2 [3, 1, 2] ≠ Ix.bsearch Ix.natLt 2 [3, 1, 
 #print axioms C01_config_std
 #print axioms C01_binarySearch
 #print axioms C01_binarySearch_range
+#print axioms C01_contains_binarySearch
 
 end Cors
